@@ -95,7 +95,7 @@ func (pr *ProtoArray) getNode(index NodeIndex) (*ProtoNode, error) {
 		return nil, invalidIndexErr
 	}
 	i := index - pr.indexOffset
-	if i > NodeIndex(len(pr.nodes)) {
+	if i >= NodeIndex(len(pr.nodes)) {
 		return nil, invalidIndexErr
 	}
 	return &pr.nodes[i], nil
@@ -189,7 +189,10 @@ func (pr *ProtoArray) CanonAtSlot(anchor Root, slot Slot, withBlock bool) (at No
 			if !ok {
 				panic("anchor node is missing")
 			}
-			node := &pr.nodes[i]
+			node, err := pr.getNode(i)
+			if err != nil {
+				return NodeRef{}, err
+			}
 			// Is the anchor a filled node?
 			if node.ParentRoot != anchor {
 				return NodeRef{}, fmt.Errorf("cannot look for pre-block %d at anchor, anchor is post-block", slot)
@@ -259,7 +262,10 @@ func (pr *ProtoArray) Search(anchor NodeRef, parentRoot *Root, slot *Slot) (nonC
 			// if it has no child, it's a head.
 			if node.BestChild != NONE {
 				// if it has only empty slots as children, it's a head.
-				desc := &pr.nodes[node.BestDescendant]
+				desc, err := pr.getNode(node.BestDescendant)
+				if err != nil {
+					return nil, nil, err
+				}
 				if desc.Ref.Root != node.Ref.Root {
 					continue
 				}
